@@ -29,6 +29,7 @@
    length K). *)
 From Coq Require Import List ZArith Bool Arith Lia.
 From LMBase Require Import Res ListX.
+From LMDist Require Import GenDist.
 Import ListNotations.
 Open Scope Z_scope.
 
@@ -68,7 +69,8 @@ Arguments CNInf {T}.
 
 Definition i32_min : Z := -2147483648.
 Definition i32_max : Z := 2147483647.
-Definition cdf_range : nat := 1000.
+(* const CDF_RANGE, re-read from dist.rs on every run (GenDist.v) *)
+Definition cdf_range : nat := gen_cdf_range.
 
 Definition in_i32 (z : Z) : bool := (i32_min <=? z) && (z <=? i32_max).
 
@@ -348,6 +350,10 @@ Section Model.
     | Some x => if d_max d <? 0 then Panic 9 else Ok x
     | None => Panic 9
     end.
+
+  (* Distribution<f32>::sample (feature "sampling"): `let p = Uniform::new_inclusive(0.0, 1.0).sample(rng);
+     self.score(p)` -- the uniform draw p is an input of the model (rand's generator is an oracle) *)
+  Definition d_sample (d : dist T) (p : T) : res T := d_score d p.
 
   (* pvalue(score(p)) *)
   Definition d_roundtrip (d : dist T) (p : T) : res T :=
